@@ -74,7 +74,7 @@ type C04Case struct {
 }
 
 func genC04(r *Rng, tier string) *C04Case {
-	cs := &C04Case{Cfg: genCfg(r, 0.1)}
+	cs := &C04Case{Cfg: genCfg(r, 0.25)}
 	cs.Cfg.apply() // Source() during generation must already use this case's delimiters
 	ne := r.Range(1, 4)
 	for i := 0; i < ne; i++ {
@@ -146,7 +146,7 @@ func genC04(r *Rng, tier string) *C04Case {
 		}
 	}
 	cs.Lazy = r.Chance(0.25)
-	cs.NoPath = r.Chance(0.3)
+	cs.NoPath = r.Chance(0.5)
 	hotT, hotB := r.Intn(nt), r.Intn(ne)
 	for i := 0; i < n; i++ {
 		var ops []C04Op
